@@ -3,3 +3,5 @@ import NormModel.Properties.C01
 #print axioms Norm.C01.col_mono
 #print axioms Norm.C01.linelen_silent
 #print axioms Norm.C01.token_col_le
+#print axioms Norm.C01.spacing_silent
+#print axioms Norm.C01.always_silent
